@@ -7,6 +7,8 @@
 # check once on the unchanged copy (must exit 0). Writes seeded/REGRESSION.txt.
 cd /verif
 SLOTS="${1:-4}"; PAT="${2:-*}"
+# work from a snapshot of both trees, so that the run is not disturbed by (and does not constrain) work in them
+eval "$(tools/ns_snapshot.sh)"
 exec python3 - "$SLOTS" "$PAT" <<'PY'
 import sys, os, json, glob, subprocess, fnmatch, threading, queue, time
 slots = int(sys.argv[1]); pat = sys.argv[2]
@@ -38,7 +40,7 @@ def worker(slot):
         print(f'{name}: check {chk} exit={p.returncode}', flush=True)
 ts = [threading.Thread(target=worker, args=(s,)) for s in range(slots)]
 [t.start() for t in ts]; [t.join() for t in ts]
-head = subprocess.run(['git', '-C', '/repo', 'rev-parse', '--short', 'HEAD'], capture_output=True, text=True).stdout.strip()
+head = subprocess.run(['git', '-C', os.environ.get('NS_REPO_SRC', '/repo'), 'rev-parse', '--short', 'HEAD'], capture_output=True, text=True).stdout.strip()
 lines = [f'# seeded regression at /repo {head}, {time.strftime("%Y-%m-%d %H:%M")}; detected = the named check exits 1 with a VIOLATION line']
 bad = 0
 for name, patch, chk in jobs:
